@@ -484,7 +484,7 @@ def joinStr (sep : Str) : List Str → Str
 def cmdArrayJoin (s : St) : List Str → St × Res
   | key :: sep :: _ =>
     match tget s.tbl key with
-    | some (.list l) => (s, .val (if l.isEmpty then none else some (joinStr sep (l.map Item.render))))
+    | some (.list l) => (s, .val (some (joinStr sep (l.map Item.render))))
     | _ => (s, .err)
   | _ => (s, .err)
 
